@@ -133,6 +133,82 @@ def _run_real(mods, vec, variant, flavour="fake"):
     return canon, problems, (outcome, got_idx)
 
 
+def _run_repeats(mods, ids, vec, eq_mode, variant):
+    """One authenticate() whose get_sources() yields the same source object again (eq_mode 'same') or distinct
+    objects that compare equal (eq_mode 'equal').  The k-th call made follows vec[k].
+    Returns (canonical string, problems)."""
+    AuthStrategy, AuthSource, AuthResult, AuthFailure, SourceResult, excs = mods
+    transport = object()
+    b_classes = excs["B"]
+    log = []          # (source object, object returned / raised), one per call, in order
+
+    class Src(AuthSource):
+        def __init__(self, ident):
+            super().__init__(username="u%d" % ident)
+            self.ident = ident
+
+        def __eq__(self, other):
+            return isinstance(other, Src) and other.ident == self.ident
+
+        def __hash__(self):
+            return hash(self.ident)
+
+        def authenticate(self, tr):
+            k = len(log)
+            o = vec[k]
+            if o == "o":
+                val = [[], ["password"]][(k + variant) % 2]
+                log.append((self, val))
+                return val
+            e = excs["A"]("Authentication failed.") if o == "a" else b_classes[(k + variant) % len(b_classes)]("boom")
+            log.append((self, e))
+            raise e
+
+    pool = {}
+    if eq_mode == "same":
+        srcs = [pool.setdefault(i, Src(i)) for i in ids]
+    else:
+        srcs = [Src(i) for i in ids]
+
+    class Strat(AuthStrategy):
+        def get_sources(self):
+            yield from srcs
+
+    try:
+        res = Strat(ssh_config=None).authenticate(transport)
+        outcome = "ret"
+    except AuthFailure as e:
+        res, outcome = e.result, "fail"
+    except Exception as e:
+        return None, [("escaped:" + exc_site(e), repr(e))]
+    problems = []
+    want_idx, want_ret = _expected(vec)
+    if (outcome == "ret") != want_ret:
+        problems.append(("wrong-ending-with-repeated-sources", outcome))
+    if [s for s, _ in log] != [srcs[i] for i in want_idx] or any(a is not srcs[i] for (a, _), i in zip(log, want_idx)):
+        problems.append(("call-order", "calls made differ from the sources produced"))
+    items = list(res)
+    if len(items) != len(log):
+        problems.append(("result-shorter-than-attempts:repeated-source",
+                         "%d source.authenticate calls were made (sources %r, outcomes %r) but the result has %d entries"
+                         % (len(log), ids, vec[:len(log)], len(items))))
+    elif any(it.source is not a or it.result is not r for it, (a, r) in zip(items, log)):
+        problems.append(("result-not-in-attempt-order:repeated-source",
+                         "entries %r, attempts %r" % ([(it.source.ident, type(it.result).__name__) for it in items],
+                                                        [(a.ident, type(r).__name__) for a, r in log])))
+
+    def letter(pos, it):
+        r = it.result
+        if isinstance(r, BaseException):
+            return "a" if type(r) is excs["A"] else "b"
+        # position of the call that produced this value
+        k = next((j for j, (_a, rr) in enumerate(log) if rr is r), -1)
+        return "o=%d" % k
+    canon = "%s %s | calls %s" % (outcome, " ".join("%d:%s" % (it.source.ident, letter(p_, it)) for p_, it in enumerate(items)),
+                                  " ".join(str(a.ident) for a, _ in log))
+    return canon, problems
+
+
 def _run_session(mods, vecs, variant):
     """Several authenticate() calls on ONE strategy object, each with its own source list.
     Returns (canonical string, problems)."""
@@ -296,7 +372,9 @@ def run(ctx):
                 "OnDiskPrivateKey sources over a scripted transport; plus sessions of 2..4 authenticate() calls on ONE "
                 "strategy object (all 169 pairs of vectors of length <= 2 exhaustively, 800 random), checking that each "
                 "call reports only its own attempts, hands out a fresh result object and leaves earlier results "
-                "untouched. distinct = distinct (flavour, vector); "
+                "untouched; plus source lists in which the same source object, or distinct sources comparing ==, occur "
+                "several times (ids over {0,1}, length <= 4, every outcome vector exhaustively; 600 random up to length "
+                "8). distinct = distinct (flavour, vector); "
                 "non-trivial = at least two sources and not all identical outcomes")
     ctx.trust("Python generator / for-break semantics (a generator is advanced once per loop iteration)")
     ctx.build()
@@ -327,6 +405,28 @@ def run(ctx):
             ctx.fail(sig, {"flavour": "session (one strategy object)", "vectors": sv}, detail)
         if canon is not None and sess_replies is not None and sess_replies[si] != canon:
             ctx.disagree("authenticate x n on one strategy", {"vectors": sv}, sess_replies[si], canon)
+    # repeated / equal sources within one call
+    reps = []
+    for n in range(1, 5):                                   # exhaustive: ids over {0,1}, n <= 4, all outcome vectors
+        for ids in itertools.product((0, 1), repeat=n):
+            for v in itertools.product(LETTERS, repeat=n):
+                reps.append((list(ids), "".join(v), "same" if (len(reps) % 2) else "equal"))
+    for _ in range(3000 if ctx.thorough else 600):
+        n = ctx.rng.randrange(2, 9)
+        ids = [ctx.rng.randrange(0, 3) for _ in range(n)]
+        v = "".join(ctx.rng.choice("aab") if ctx.rng.random() < 0.85 else "o" for _ in range(n))
+        reps.append((ids, v, ctx.rng.choice(["same", "equal"])))
+    rep_replies = ctx.driver("C44", ["authsrc %s %s" % (",".join(map(str, ids)), v) for ids, v, _ in reps])
+    for ri, (ids, v, eq_mode) in enumerate(reps):
+        canon, problems = _run_repeats(mods, ids, v, eq_mode, ri % 7)
+        ctx.case(("repeats", tuple(ids), v, eq_mode), len(set(ids)) < len(ids))
+        ctx.dist("flavour:repeated-sources:" + eq_mode)
+        if ri % 700 == 0:
+            ctx.sample({"flavour": "repeated sources (%s)" % eq_mode, "source_ids": ids, "vector": v, "observed": canon})
+        for sig, detail in problems:
+            ctx.fail(sig, {"flavour": "repeated sources (%s object)" % eq_mode, "source_ids": ids, "vector": v}, detail)
+        if canon is not None and rep_replies is not None and rep_replies[ri] != canon:
+            ctx.disagree("authenticate with repeated sources", {"source_ids": ids, "vector": v}, rep_replies[ri], canon)
     replies = ctx.driver("C44", ["auth " + (v or "-") for _, v, _ in vectors])
     for idx, (flavour, vec, variant) in enumerate(vectors):
         canon, problems, obs = _run_real(mods, vec, variant, flavour)
@@ -352,7 +452,8 @@ META = {
               "(calls_are_attempts); outcome-vector form for all vectors (authenticate_outcome_vector); with object identity "
               "modelled (heap of AuthResult objects): for every prior history of calls on the same strategy object a call "
               "allocates a fresh result, fills it with exactly the one-shot result of its own sources and changes no "
-              "earlier result (authCall_spec, authCall_eq_one_shot, session_spec, earlier_results_unchanged). Tied to "
+              "earlier result (authCall_spec, authCall_eq_one_shot, session_spec, earlier_results_unchanged); one entry per "
+              "call also for repeated/equal sources (one_entry_per_call; all theorems quantify over arbitrary lists). Tied to "
               "auth_strategy.py by an exhaustive differential run over all 9841 outcome vectors of length 0..8 plus "
               "random vectors through the real source classes and sessions of several calls on one strategy object on every check."),
     "note": ("Trusted: Lean kernel + 3 standard axioms; the harness; CPython for/break/generator semantics. "
